@@ -721,7 +721,7 @@ class Geometry(SupportsCoords[float]):
         if resolution == "auto":
             resolution = _auto_resolution(self)
 
-        if resolution is not None and math.isfinite(resolution):
+        if resolution is not None and math.isfinite(resolution) and resolution > 0:
             geom = self.segmented(resolution)
         else:
             geom = self
@@ -1412,7 +1412,7 @@ def lonlat_bounds(
     if resolution == "auto":
         resolution = _auto_resolution(geom)
 
-    if resolution is not None and math.isfinite(resolution):
+    if resolution is not None and math.isfinite(resolution) and resolution > 0:
         geom = geom.segmented(resolution)
 
     bbox = geom.to_crs("EPSG:4326", check_and_fix=True).boundingbox
